@@ -279,9 +279,14 @@ func runC20(env *Env) {
 		cs := "more default generators made than the library has partitions, then 8 further generators drawn from concurrently"
 		env.Current(cs)
 		made := 0
+		var early []id.IGenerator
 		for ; made < 70000; made++ {
-			if _, err := id.GetSno().NewIdGenerator(ctx, tr); err != nil {
+			g, err := id.GetSno().NewIdGenerator(ctx, tr)
+			if err != nil {
 				break
+			}
+			if made < 4 || (made >= 65536 && made < 65540) {
+				early = append(early, g) // long-lived ones, and the ones made exactly 65536 generators later
 			}
 		}
 		gens := make([]id.IGenerator, 8)
@@ -294,6 +299,11 @@ func runC20(env *Env) {
 				late++
 			}
 			gens[i] = g
+		}
+		if len(early) > 4 {
+			// the library kept handing generators out: the first four are drawn from together with the four made 65536
+			// generators after them
+			gens = append(gens, early...)
 		}
 		all := c20Draw(gens, 2, dur/4, 1<<17)
 		total, dups, ex := c20Dups(all)
